@@ -230,6 +230,7 @@ struct Lossy {
       //  ring up on steady tones and sweeps for hundreds of milliseconds, see DESIGN.md 10.4)
       bool benign_src = rc.fam == SRC_VOICED || rc.fam == SRC_ONSETS || rc.fam == SRC_STEADYVOICED || rc.fam == SRC_NOISE || rc.fam == SRC_SILENCE;
       if (concealment_only && history_ok && in_step && benign_src && clean_run48 >= 150 * 48 && S.t48 >= 0 && k >= 2 && !log[k - 1].lost) pending.push_back(Pending{k, peak(pl), used_fec, rc.mode, cng_level, peak(recentL)});
+      const bool fec_after_clean_run = in_step && clean_run48 >= 150 * 48;   // (the receiver had been decoding in step with the encoder: >= 150 ms since the last loss, last packet within -20 dB of the twin)
       clean_run48 = 0;
       // ---- decay under sustained loss (decay-probe sessions: loud voiced / tonal burst after a quiet lead-in)
       conceal_run48 += rc.frame48;
@@ -242,7 +243,7 @@ struct Lossy {
       }
       // ---- FEC level, per SILK frame: where the following packet carries a redundant copy of exactly this 20 ms frame and the frame was
       // loud, the reconstruction is not near-silence (every flavour; mono streams, isolated losses, same packet duration on both sides)
-      if (used_fec && k + 1 < npk && (k == 0 || !log[k - 1].lost) && log[k + 1].frame48 == rc.frame48 && !pr.empty() && pl.size() == pr.size()) {
+      if (used_fec && fec_after_clean_run && k + 1 < npk && (k == 0 || !log[k - 1].lost) && log[k + 1].frame48 == rc.frame48 && !pr.empty() && pl.size() == pr.size()) {
         int mid = 0, side = 0, nf = opsim_silk_lbrr_flags(log[k + 1].pkt.data(), (int)log[k + 1].pkt.size(), &mid, &side);
         // (only where the redundant copy is coded at a useful rate: the encoder coarsens the LBRR quantiser by up to 7 gain steps when the
         //  expected loss is low - at 1 % a steady 3 kHz tone is quantised to an all-zero excitation and the copy is, by design, near-silent;
